@@ -578,6 +578,39 @@ def check_case(case, ctx):
             # the accepted pH difference of this row is a nuisance parameter of every pH-dependent result
             if isinstance(va[0], float) and isinstance(vb[0], float):
                 ctxv["nu"] = min(abs(va[0] - vb[0]), ctxv["tol_pH"])
+        # KNOWN FINDING (replays/C15/known/exhausted-phase-element-not-conserved.json): when an equilibrium phase with a
+        # finite amount is used up during a batch reaction, the engine occasionally (6 of 200 water factors in the recorded
+        # system) ends with up to 1e-8 mol more or less of that phase's elements in the system than went in (SYS("Si")
+        # 7.852054e-4 instead of 7.852e-4), which none of its convergence criteria allows.  Signature: a phase exhausted in
+        # this row, SYS of one of ITS elements differs between the views by more than 10x the mass-balance criterion (but
+        # < 1e-4 relative) while the other elements are conserved to that criterion.  Such pairs are excluded and counted (a "strict" case, as in the known replay, is not excluded).
+        if state == "react" and not case.get("strict") and not info["bitwise"]:
+            stg_ = m if sim == 1 else (st2 or {})
+            used_up = set()
+            for p_ in (stg_.get("eq") or {}).get("phases", []):
+                j_ = [j for j, o in enumerate(obs) if o[0] == 'EQUI("%s")' % p_["name"]]
+                if p_["moles"] > 0 and j_ and any(isinstance(v[j_[0]], float) and v[j_[0]] <= 0.0 for v in (va, vb)):
+                    ph_ = dbm.phase(p_["name"])
+                    used_up |= set(_els(ph_.elements)) if ph_ else set()
+            if used_up:
+                dev_in, dev_out = 0.0, 0.0
+                for j, o in enumerate(obs):
+                    if o[0].startswith("SYS(") and isinstance(va[j], float) and isinstance(vb[j], float):
+                        a_, b_ = va[j], vb[j] / row_ext
+                        d_ = abs(a_ - b_) / max(abs(a_), abs(b_), 1e-300)
+                        # in units of what the mass-balance criterion allows for that total (5 sqrt(1e-25 / n), >= 1e-13)
+                        crit_ = max(5.0 * math.sqrt(1e-25 / max(min(abs(a_), abs(b_)), 1e-300)), 1e-13)
+                        if o[3][0] in used_up:
+                            if d_ < 1e-4:
+                                dev_in = max(dev_in, d_ / crit_)
+                            else:
+                                dev_out = 1e99          # a gross difference is never the known finding
+                        else:
+                            dev_out = max(dev_out, d_ / crit_)
+                if dev_in > 10.0 and dev_out <= 10.0:
+                    ctx.event("excl:known_finding_exhausted_phase_element_not_conserved")
+                    return {"nontrivial": False, "classes": ["excl:known_finding_exhausted_phase_element_not_conserved"],
+                            "worst": [0.0, ""]}
         # a gas phase that has dissolved completely has no composition: its pressures are not results
         gas_n = sum(abs(va[i]) for i, o in enumerate(obs) if o[0].startswith("GAS(") and isinstance(va[i], float))
         gas_gone = gas_n <= 1e-9 * max(kgw, 1e-30)
